@@ -39,6 +39,12 @@ def make_case(tier, seed, index):
             dt = 1.0 / den
             D = k / den  # k steps exactly, up to rounding
             regime = "integer-up-to-rounding"
+        elif u < 0.52:
+            # a duration that exceeds k steps by a small but real amount (far above rounding error): it needs k + 1 steps
+            dt = float(gen._choice(rng, gen.DTS))
+            k = int(rng.integers(1, 14))
+            D = dt * k * (1.0 + float(rng.choice([1e-7, 1e-6, 4e-6])))
+            regime = "just-above-integer"
         elif u < 0.6:
             dt = float(gen._choice(rng, gen.DTS))
             D = dt * float(rng.uniform(0.05, 0.95))
